@@ -26,6 +26,10 @@ def _one(st, v):
     return [(st, v)]
 
 
+UF_LINECOUNT = z3.Function("py_str_linecount", STR, z3.IntSort())
+UF_LINE = z3.Function("py_str_line", STR, z3.IntSort(), STR)
+
+
 def str_method(eng, st, recv, name, args, kwargs, origin):
     if isinstance(recv, VC) and all(isinstance(a, VC) for a in args) and all(isinstance(a, VC) for a in kwargs.values()):
         try:
@@ -83,8 +87,8 @@ def str_method(eng, st, recv, name, args, kwargs, origin):
     if name == "splitlines":
         from .loops import SymList
 
-        eng.use("str.splitlines(): opaque list of symbolic lines (no line contains a line break)")
-        return _one(st, SymList.fresh_str_list(st, "lines"))
+        eng.use("str.splitlines(): opaque list of symbolic lines; its length and elements are functions of the string")
+        return _one(st, SymList.fresh_str_list(st, "lines", n=UF_LINECOUNT(s), elem=lambda i, _s=s: UF_LINE(_s, i)))
     if name == "ljust":
         return _one(st, VStr(UF_LJUST(s, S.to_int_term(args[0]))))
     if name == "format":
